@@ -57,6 +57,8 @@ def candidates():
                 continue
             if have_cov and n in unc:
                 continue
+            if os.environ.get("MUT_GREP") and not re.search(os.environ["MUT_GREP"], line, re.I):
+                continue       # MUT_GREP=<regex>: only lines that mention what the property is about
             code = re.sub(r"/\*.*?\*/", lambda m: " " * len(m.group(0)), line.split("//")[0])
             code = code.split("/*")[0]
             for k, (pat, rep) in enumerate(OPS):
